@@ -10,7 +10,8 @@ EXPL = ("Decides: SA-SIBLING: the per-byte regions of update / update_by_iter / 
         "SA-PURE: finalisers take &self, the state types have no interior mutability and nothing in their closure writes through a "
         "shared reference, Clone is derived - finalising or cloning cannot disturb later updates; hash_buf declares buffer.len(), "
         "feeds the same slice once and finalises the same generator; the reader loop feeds exactly buffer[0..len] of each read "
-        "(SA-ERRFLOW). NOT decided: that up-front vs per-byte size accounting cannot change an elimination decision (monotonicity "
+        "(SA-ERRFLOW); SA-FIELDS: a size declaration records exactly Some(size) and the fork limit min(NUM_VALID-1, index(size)+1) - the one "
+        "limit that never withholds a context the final block-size guess for that size can select, so declaring (as hash_buf/hash_file do) cannot change the hash. NOT decided: that up-front vs per-byte size accounting cannot change an elimination decision (monotonicity "
         "argument over sizes) and the step function itself.")
 
 
@@ -27,6 +28,7 @@ def run(ctx):
         ctx.guard("C03", "writers", lambda: gen.field_writers(ctx, prog))
         ctx.guard("C03", "addassign", lambda: engine.add_assign_forms(ctx, prog))
         ctx.guard("C03", "delegate", lambda: gen.finalizers_delegate(ctx, prog))
+        ctx.guard("C03", "declared", lambda: gen.ok_effects_set_fixed(ctx, prog))
         if c.startswith("unsafe"):
             ctx.guard("C03", "mirror", lambda: engine.mirror(ctx, prog))
         if c != "nodef":
